@@ -610,6 +610,7 @@ type ReqOpt struct {
 	DeclLen int64 // declared Content-Length for a BodyRdr (0 = leave as built)
 	BodyRdr io.Reader
 	CType   string
+	RespHdr http.Header // headers an enclosing handler has already put on the response
 }
 
 func (w *World) baseQuery(s *Sess) string {
@@ -680,6 +681,9 @@ func (w *World) StartReq(kind string, s *Sess, o ReqOpt) *Req {
 		req.Header.Set("Content-Type", "text/plain;charset=UTF-8")
 	}
 	r := &Req{ID: id, Kind: kind, Sess: s, rr: &respRec{hdr: http.Header{}}, cancel: cancel, done: make(chan struct{})}
+	for k, v := range o.RespHdr {
+		r.rr.hdr[k] = append([]string(nil), v...)
+	}
 	w.mu.Lock()
 	w.reqs[id] = r
 	w.mu.Unlock()
